@@ -142,10 +142,11 @@ impl ConnectionState {
         // bail out if we shouldn't be getting frames
         let ch0_slot = match self {
             ConnectionState::Steady(ch0_slot) => ch0_slot,
-            ConnectionState::ClientException => return Ok(()),
-            ConnectionState::ServerClosing(_) | ConnectionState::ClientClosed => {
-                return FrameUnexpectedSnafu.fail();
-            }
+            // Once a close is in progress (or done) whatever else was still in flight from
+            // the server is irrelevant; in particular it must not turn the close into an error.
+            ConnectionState::ClientException
+            | ConnectionState::ServerClosing(_)
+            | ConnectionState::ClientClosed => return Ok(()),
         };
 
         match frame {
